@@ -2,6 +2,7 @@ CONSTANTS
   Family = "array"
   Unit = "utf16"
   MaxOps = 6
+  Shape <- NoShape
 SPECIFICATION Spec
 INVARIANTS InvWellFormed InvUniqueTags PrintSchedules
 CHECK_DEADLOCK FALSE
